@@ -81,6 +81,18 @@ func genRobust(t *rapid.T, proto string, envs map[string]*wire.GenEnv, amplify b
 		switch proto {
 		case "ipfix", "nf9":
 			env := envs[proto]
+			if len(known) > 0 && rapid.IntRange(0, 11).Draw(t, "restart") == 0 {
+				// collector restart: the template cache is written to its file and loaded back (whatever earlier
+				// payloads installed is now what the loader makes of it), then data for a known template arrives
+				c.Items = append(c.Items, rbItem{Exp: exp, Note: "restart"})
+				k := known[rapid.IntRange(0, len(known)-1).Draw(t, "afterrestart")]
+				var d wire.Msg
+				env.GenHeader(t, &d)
+				tp := k.tp
+				d.Sets = []wire.Set{env.GenDataSet(t, &tp, 3)}
+				add(k.exp, d.Bytes(), "valid")
+				continue
+			}
 			if kind >= 5 && kind <= 7 && len(known) > 0 && rapid.IntRange(0, 3).Draw(t, "zeroredef") == 0 {
 				// a known template is re-announced with the same elements and field count but (some or all) lengths
 				// zero / huge, then data for it follows: anything derived from the first definition is now stale
@@ -435,6 +447,17 @@ func runRobust(prop string, c *rbCase, bounds bool) (v verdict, sig string, err 
 		if i%4 == 0 {
 			runtime.ReadMemStats(&ms)
 		}
+		if it.Note == "restart" {
+			if cache != nil {
+				var e error
+				if cache, e = restartCache(c.Proto, cache); e != nil {
+					sig, err = "restart", fmt.Errorf("item %d (restart: cache dumped and loaded back): %v", i, e)
+					break
+				}
+				v.label(true, "restart-in-history")
+			}
+			continue
+		}
 		inflight.Store(&inflightT{prop: prop, data: cj, start: time.Now(), heap0: ms.HeapAlloc})
 		sig, err = processOne(c.Proto, cache, c.Exporters[it.Exp], it.Data, bounds, &st)
 		inflight.Store(nil)
@@ -465,6 +488,37 @@ func runRobust(prop string, c *rbCase, bounds bool) (v verdict, sig string, err 
 	return v, sig, err
 }
 
+// restartCache writes the cache to a file and loads it back through the real loader, as a restart does.
+func restartCache(proto string, cache *flowCache) (out *flowCache, err error) {
+	work := os.Getenv("VERIF_WORK")
+	if work == "" {
+		work = os.TempDir()
+	}
+	f, e := os.CreateTemp(work, "rbcache-*")
+	if e != nil {
+		return cache, nil // rig trouble: keep going with the cache as it is
+	}
+	name := f.Name()
+	f.Close()
+	defer os.Remove(name)
+	func() {
+		defer func() {
+			if r := recover(); r != nil {
+				err = fmt.Errorf("Dump panicked: %v", r)
+			}
+		}()
+		cache.dump(name)
+	}()
+	if err != nil {
+		return cache, err
+	}
+	out, perr := safeLoad(proto, name)
+	if perr != nil {
+		return cache, perr
+	}
+	return out, nil
+}
+
 var robustProtos = []string{"ipfix", "nf9", "nf5", "sflow"}
 
 func robustEnvs() map[string]*wire.GenEnv {
@@ -474,7 +528,7 @@ func robustEnvs() map[string]*wire.GenEnv {
 
 const c01Rule = "case = history of 1..12 datagrams of one protocol (ipfix | nf9 | nf5 | sflow) from 1..3 exporters (4-byte, IPv4-mapped, IPv6), each datagram drawn from: " +
 	"valid (structured generators, incl. template announcements), valid-then-mutated (1..3 of: set a structural 16/32-bit length/count/type field to a boundary value, truncate, extend, splice, bit flip, duplicate/delete a range), " +
-	"adversarially structured (templates with 0 fields, zero-length / huge / variable-length fields on any type, disagreeing counts, ids < 256; known templates re-announced with the same elements but zero / huge lengths and then used; sets with reserved ids and arbitrary bodies), raw bytes behind a valid version word, replays of earlier datagrams; " +
+	"collector restarts in between (template cache dumped to a file and loaded back through the real loader, then data for a known template), adversarially structured (templates with 0 fields, zero-length / huge / variable-length fields on any type, disagreeing counts, ids < 256; known templates re-announced with the same elements but zero / huge lengths and then used; sets with reserved ids and arbitrary bodies), raw bytes behind a valid version word, replays of earlier datagrams; " +
 	"executed exactly as a worker does (Decode + JSONMarshal / SFDecode + json.Marshal) against one fresh template cache per history; oracle = no panic and the call returns (watchdog); " +
 	"non-trivial = the history holds a mutated/weird datagram and some datagram got past header validation into set/sample parsing; distinct by hash"
 
